@@ -971,7 +971,10 @@ func drawProof(t *rapid.T) ProofCase {
 
 func TestProofs(t *testing.T) { stats.Prop(t, drawProof, checkProof) }
 
-func TestReplayProofs(t *testing.T)     { restorePath(t); stats.Replay(t, "TestProofs", checkProof) }
-func TestReplayEnumRange(t *testing.T)  { restorePath(t); stats.Replay(t, "TestEnumRange", checkProof) }
-func TestReplayEnumAppend(t *testing.T) { restorePath(t); stats.Replay(t, "TestEnumAppend", checkProof) }
-func TestReplayEnumFree(t *testing.T)   { restorePath(t); stats.Replay(t, "TestEnumFree", checkProof) }
+func TestReplayProofs(t *testing.T)    { restorePath(t); stats.Replay(t, "TestProofs", checkProof) }
+func TestReplayEnumRange(t *testing.T) { restorePath(t); stats.Replay(t, "TestEnumRange", checkProof) }
+func TestReplayEnumAppend(t *testing.T) {
+	restorePath(t)
+	stats.Replay(t, "TestEnumAppend", checkProof)
+}
+func TestReplayEnumFree(t *testing.T) { restorePath(t); stats.Replay(t, "TestEnumFree", checkProof) }
